@@ -3,7 +3,7 @@
 //! Leaves: Bool I64 U64 F64 F32 Bytes Text Json Vector.
 //! Constructors over child types: Option(T); Array([]); Array([T]);
 //! Array([T,U]) (tuple / heterogeneous); wildcard Map with Text / I64 / Bytes
-//! key; keyed Map {a: T, b: Option(U)}.
+//! key; keyed Map {a: T} and {a: T, b: Option(U)}.
 //!
 //! Level 1 = leaves. Level n+1 applies every constructor to children of which
 //! at least one has level n. Unary constructors range over `unary` children,
@@ -53,6 +53,10 @@ pub fn wild_i64(t: Ft) -> Ft {
 pub fn wild_bytes(t: Ft) -> Ft {
     Ft::Map(BTreeMap::from([(FieldKey::Bytes(b"*".to_vec()), t)]))
 }
+/// keyed map with a single declared key (must not be mistaken for a wildcard map)
+pub fn keyed1(t: Ft) -> Ft {
+    Ft::Map(BTreeMap::from([(FieldKey::Text("a".into()), t)]))
+}
 pub fn keyed(t: Ft, u: Ft) -> Ft {
     Ft::Map(BTreeMap::from([
         (FieldKey::Text("a".into()), t),
@@ -91,6 +95,7 @@ pub fn compose(unary: &[Ft], pairs: &[(Ft, Ft)], with_untyped_array: bool) -> Ve
         out.push(wild_text(t.clone()));
         out.push(wild_i64(t.clone()));
         out.push(wild_bytes(t.clone()));
+        out.push(keyed1(t.clone()));
     }
     for (t, u) in pairs {
         out.push(tuple(t.clone(), u.clone()));
